@@ -1,0 +1,132 @@
+//go:build verif
+
+// Contracts for the deductive verifier in /verif (govc). This file contains comments
+// only; it is compiled only with the build tag "verif" and then adds nothing but the
+// package clause.
+
+package utils
+
+// Ghost history of the calls made while a helper runs (changed only by the call events):
+//   gDivN                 number of divider calls so far
+//   gDivPri/gDivQ[n]      the priorities slice and the dividend passed at call n
+//   gDivFilled[n]         after call n every listed priority had at least one unit
+//   gNFn, gNFq[n], gNFr[n]   calls of isNonFatalConfig: quantity argument and result
+//   gSUn, gSUq[n], gSUr[n]   calls of isSuitableConfig: quantity argument and result
+
+//@ ghost var gDivN int
+//@ ghost var gDivPri map[int]slice
+//@ ghost var gDivQ map[int]int
+//@ ghost var gDivFilled map[int]bool
+//@ ghost var gNFn int
+//@ ghost var gNFq map[int]int
+//@ ghost var gNFr map[int]bool
+//@ ghost var gSUn int
+//@ ghost var gSUq map[int]int
+//@ ghost var gSUr map[int]bool
+
+// The divider is an arbitrary function value; what it did at each call is recorded.
+//@ functype Divider(priorities, dividend, distribution)
+//@   modifies content(distribution)
+//@ event call functype Divider (priorities, dividend, distribution)
+//@   effect-after gDivPri := store(gDivPri, gDivN, priorities)
+//@   effect-after gDivQ := store(gDivQ, gDivN, dividend)
+//@   effect-after gDivFilled := store(gDivFilled, gDivN, forall a :: 0 <= a && a < len(priorities) ==> distribution[priorities[a]] >= 1)
+//@   effect-after gDivN := gDivN + 1
+
+//@ event call utils.isNonFatalConfig (combinations, divider, quantity)
+//@   effect-after gNFq := store(gNFq, gNFn, quantity)
+//@   effect-after gNFr := store(gNFr, gNFn, result)
+//@   effect-after gNFn := gNFn + 1
+
+//@ event call utils.isSuitableConfig (combinations, priorities, divider, quantity, diffLimit)
+//@   effect-after gSUq := store(gSUq, gSUn, quantity)
+//@   effect-after gSUr := store(gSUr, gSUn, result)
+//@   effect-after gSUn := gSUn + 1
+
+// C18: true exactly when, for every combination, the division of `quantity` among its members
+// (as performed by the divider in this call) gave each member at least one unit.
+//@ func isNonFatalConfig
+//@   requires [*] divider != nil
+//@   modifies anycontent(uint), gDivN, gDivPri, gDivQ, gDivFilled
+//@   ensures [C18] true-means-every-combination-was-divided-and-filled: result ==> (gDivN == old(gDivN) + len(combinations)
+//@            && (forall j :: 0 <= j && j < len(combinations) ==> (gDivFilled[old(gDivN) + j] && gDivPri[old(gDivN) + j] == combinations[j] && gDivQ[old(gDivN) + j] == quantity)))
+//@   ensures [C18] false-means-some-combination-was-not-filled: !result ==> (gDivN > old(gDivN) && gDivN - old(gDivN) <= len(combinations) && !gDivFilled[gDivN - 1]
+//@            && gDivQ[gDivN - 1] == quantity && gDivPri[gDivN - 1] == combinations[gDivN - 1 - old(gDivN)])
+//@   loop 0
+//@     invariant [* C18] gDivN == old(gDivN) + $i
+//@     invariant [* C18] forall j :: 0 <= j && j < $i ==> (gDivFilled[old(gDivN) + j] && gDivPri[old(gDivN) + j] == combinations[j] && gDivQ[old(gDivN) + j] == quantity)
+
+// Float-heavy comparison of a distribution with the reference one: not specified (trusted: no claim).
+//@ func isDistributionSuitable
+//@   trusted
+
+// C18: suitable implies non-fatal - a true result means the first division of every
+// combination (the one by `quantity`) was filled.
+//@ func isSuitableConfig
+//@   requires [*] divider != nil
+//@   modifies anycontent(uint), gDivN, gDivPri, gDivQ, gDivFilled
+//@   ensures [C18] suitable-implies-non-fatal: result ==> (gDivN == old(gDivN) + 2 * len(combinations)
+//@            && (forall j :: 0 <= j && j < len(combinations) ==> (gDivFilled[old(gDivN) + 2 * j] && gDivPri[old(gDivN) + 2 * j] == combinations[j] && gDivQ[old(gDivN) + 2 * j] == quantity)))
+//@   assume-arith mul-overflow[0]
+//@   loop 0
+//@     invariant [* C18] gDivN == old(gDivN) + 2 * $i
+//@     invariant [* C18] forall j :: 0 <= j && j < $i ==> (gDivFilled[old(gDivN) + 2 * j] && gDivPri[old(gDivN) + 2 * j] == combinations[j] && gDivQ[old(gDivN) + 2 * j] == quantity)
+
+// The enumeration of the non-empty subsets is not specified (trusted: no claim about which
+// combinations are generated; see DESIGN.md 12.6).
+//@ func genCombinations
+//@   trusted
+//@ func createSortedCopy
+//@   trusted
+
+// C18: the smallest / largest quantity in [1, maxQuantity] for which the predicate - as
+// evaluated by isNonFatalConfig / isSuitableConfig in this call - holds, or 0 if none.
+//@ func PickUpMinNonFatalQuantity
+//@   requires [*] divider != nil && maxQuantity < two64 - 1
+//@   modifies anycontent(uint), gDivN, gDivPri, gDivQ, gDivFilled, gNFn, gNFq, gNFr, gPerm, gInv, anyelems(uint)
+//@   ensures [C18] zero-means-no-quantity-qualifies: result == 0 ==> (gNFn == old(gNFn) + maxQuantity && (forall j :: 0 <= j && j < maxQuantity ==> (gNFq[old(gNFn) + j] == j + 1 && !gNFr[old(gNFn) + j])))
+//@   ensures [C18] smallest-qualifying-quantity: result != 0 ==> (1 <= result && result <= maxQuantity && gNFn == old(gNFn) + result && gNFr[gNFn - 1]
+//@            && (forall j :: 0 <= j && j < result ==> (gNFq[old(gNFn) + j] == j + 1 && (j < result - 1 ==> !gNFr[old(gNFn) + j]))))
+//@   loop 0
+//@     invariant [* C18] 1 <= quantity && quantity <= maxQuantity + 1 && gNFn == old(gNFn) + $i
+//@     invariant [* C18] forall j :: 0 <= j && j < $i ==> (gNFq[old(gNFn) + j] == j + 1 && !gNFr[old(gNFn) + j])
+
+//@ func PickUpMaxNonFatalQuantity
+//@   requires [*] divider != nil
+//@   modifies anycontent(uint), gDivN, gDivPri, gDivQ, gDivFilled, gNFn, gNFq, gNFr, gPerm, gInv, anyelems(uint)
+//@   ensures [C18] zero-means-no-quantity-qualifies: result == 0 ==> (gNFn == old(gNFn) + maxQuantity && (forall j :: 0 <= j && j < maxQuantity ==> (gNFq[old(gNFn) + j] == maxQuantity - j && !gNFr[old(gNFn) + j])))
+//@   ensures [C18] largest-qualifying-quantity: result != 0 ==> (1 <= result && result <= maxQuantity && gNFn == old(gNFn) + (maxQuantity - result) + 1 && gNFr[gNFn - 1]
+//@            && (forall j :: 0 <= j && j <= maxQuantity - result ==> (gNFq[old(gNFn) + j] == maxQuantity - j && (j < maxQuantity - result ==> !gNFr[old(gNFn) + j]))))
+//@   loop 0
+//@     invariant [* C18] quantity <= maxQuantity && gNFn == old(gNFn) + (maxQuantity - quantity)
+//@     invariant [* C18] forall j :: 0 <= j && j < maxQuantity - quantity ==> (gNFq[old(gNFn) + j] == maxQuantity - j && !gNFr[old(gNFn) + j])
+
+//@ func PickUpMinSuitableQuantity
+//@   requires [*] divider != nil && maxQuantity < two64 - 1
+//@   modifies anycontent(uint), gDivN, gDivPri, gDivQ, gDivFilled, gSUn, gSUq, gSUr, gPerm, gInv, anyelems(uint)
+//@   ensures [C18] zero-means-no-quantity-qualifies: result == 0 ==> (gSUn == old(gSUn) + maxQuantity && (forall j :: 0 <= j && j < maxQuantity ==> (gSUq[old(gSUn) + j] == j + 1 && !gSUr[old(gSUn) + j])))
+//@   ensures [C18] smallest-qualifying-quantity: result != 0 ==> (1 <= result && result <= maxQuantity && gSUn == old(gSUn) + result && gSUr[gSUn - 1]
+//@            && (forall j :: 0 <= j && j < result ==> (gSUq[old(gSUn) + j] == j + 1 && (j < result - 1 ==> !gSUr[old(gSUn) + j]))))
+//@   loop 0
+//@     invariant [* C18] 1 <= quantity && quantity <= maxQuantity + 1 && gSUn == old(gSUn) + $i
+//@     invariant [* C18] forall j :: 0 <= j && j < $i ==> (gSUq[old(gSUn) + j] == j + 1 && !gSUr[old(gSUn) + j])
+
+//@ func PickUpMaxSuitableQuantity
+//@   requires [*] divider != nil
+//@   modifies anycontent(uint), gDivN, gDivPri, gDivQ, gDivFilled, gSUn, gSUq, gSUr, gPerm, gInv, anyelems(uint)
+//@   ensures [C18] zero-means-no-quantity-qualifies: result == 0 ==> (gSUn == old(gSUn) + maxQuantity && (forall j :: 0 <= j && j < maxQuantity ==> (gSUq[old(gSUn) + j] == maxQuantity - j && !gSUr[old(gSUn) + j])))
+//@   ensures [C18] largest-qualifying-quantity: result != 0 ==> (1 <= result && result <= maxQuantity && gSUn == old(gSUn) + (maxQuantity - result) + 1 && gSUr[gSUn - 1]
+//@            && (forall j :: 0 <= j && j <= maxQuantity - result ==> (gSUq[old(gSUn) + j] == maxQuantity - j && (j < maxQuantity - result ==> !gSUr[old(gSUn) + j]))))
+//@   loop 0
+//@     invariant [* C18] quantity <= maxQuantity && gSUn == old(gSUn) + (maxQuantity - quantity)
+//@     invariant [* C18] forall j :: 0 <= j && j < maxQuantity - quantity ==> (gSUq[old(gSUn) + j] == maxQuantity - j && !gSUr[old(gSUn) + j])
+
+//@ func IsNonFatalConfig
+//@   requires [*] divider != nil
+//@   modifies anycontent(uint), gDivN, gDivPri, gDivQ, gDivFilled, gNFn, gNFq, gNFr, gPerm, gInv, anyelems(uint)
+//@   ensures [C18] result-is-the-predicate: gNFn == old(gNFn) + 1 && gNFq[old(gNFn)] == quantity && (gNFr[old(gNFn)] <==> result)
+
+//@ func IsSuitableConfig
+//@   requires [*] divider != nil
+//@   modifies anycontent(uint), gDivN, gDivPri, gDivQ, gDivFilled, gSUn, gSUq, gSUr, gPerm, gInv, anyelems(uint)
+//@   ensures [C18] result-is-the-predicate: gSUn == old(gSUn) + 1 && gSUq[old(gSUn)] == quantity && (gSUr[old(gSUn)] <==> result)
